@@ -2,5 +2,6 @@
 package props
 
 import (
+	_ "verif/internal/props/c05"
 	_ "verif/internal/props/c18"
 )
